@@ -2794,7 +2794,7 @@ func (d *decoderBincBytes) decodeBytesInto(out []byte, mustFit bool) (v []byte, 
 func (d *decoderBincBytes) rawBytes() (v []byte) {
 
 	v = d.d.nextValueBytes()
-	if d.bytes && !d.h.ZeroCopy {
+	if !(d.bytes && d.h.ZeroCopy) {
 		vv := make([]byte, len(v))
 		copy(vv, v)
 		v = vv
@@ -6892,7 +6892,7 @@ func (d *decoderBincIO) decodeBytesInto(out []byte, mustFit bool) (v []byte, sta
 func (d *decoderBincIO) rawBytes() (v []byte) {
 
 	v = d.d.nextValueBytes()
-	if d.bytes && !d.h.ZeroCopy {
+	if !(d.bytes && d.h.ZeroCopy) {
 		vv := make([]byte, len(v))
 		copy(vv, v)
 		v = vv
